@@ -231,6 +231,15 @@ class World:
             if name in self.scn['server_init'] and len(self.spells[name]) > 1:
                 self.spells[name] = self.spells[name][-1:]
         self.plain_down = {s for s in self.scn['server_init'] if s not in self.nodes}
+        # (not the servers a still undelivered server_state event names: once it is
+        # processed they may be frozen, and a frozen server is not reloaded)
+        for ev in self.admin.get_children(z.EVENTS):
+            if '-server_state-' in ev:
+                try:
+                    data = zkutils.get(self.admin, z.path.event(ev))
+                    self.plain_down.discard(data[0])
+                except Exception:   # pylint: disable=broad-except
+                    pass
         for s in self.untracked:
             if not self.admin.exists(z.path.server(s)):
                 self.spells.pop(s, None)
